@@ -23,7 +23,7 @@ theorem single_map {β : Type} (κ : (Nat → K) → (Nat → K) → K) (P : Nat
     single κ P (conds.map trf) (conds.map tef)
       = (pairsOf conds).map (fun ab =>
           kdiff κ (trf ab.1) (trf ab.2) (tef ab.1) (tef ab.2) / ((P : Nat) : K)) := by
-  unfold single
+  unfold single Rsa.Gen.C02.singleNorm
   rw [zip_map_map, pairsOf_map, List.map_map]
   rfl
 
